@@ -46,8 +46,10 @@ theorem iterStoreCmp_fixed (σ : State) (h : σ.fixedIter = true) : iterStoreCmp
   hands to its user along `sched` (its own `it_first` / ITER_NEXT steps that answer `ret <k:v>`).  `kbLt` is the
   physical order of the store: `(key, bornSn)` lexicographic.
 
-  Full statement asked for (NOT proved here): "the delivered sequence is strictly increasing in KEY".  What is
-  proved is the strict increase in `(key, bornSn)` — in particular no version is ever delivered twice, which is
+  Full statement asked for (NOT proved here; proved in `Props/C01cc.lean`: `C01_conc_scan_keys_increasing_full`,
+  together with completeness of the scan, `C01_conc_scan_complete`, and the fixed content of an open snapshot,
+  `C01_conc_view_fixed`): "the delivered sequence is strictly increasing in KEY".  What is
+  proved here is the strict increase in `(key, bornSn)` — in particular no version is ever delivered twice, which is
   exactly what the key-only iterators violated.  Missing for the key form: that two different versions of one
   key are never both visible to one snapshot along a concurrent history (the sequential engine proves that as
   V2/S1 in `Props/C01`; the small-step model does not yet carry the per-key lifetime chain over unlinked
